@@ -609,7 +609,7 @@ class C11(SigBase):
     driver_in = "wait_drv.ml.in"
     open_module = "Wait_model"
     coq_targets = ["theories/MT/WaitModel.vo", "theories/MT/WaitProofs.vo",
-                   "theories/Base/CSem.vo", "theories/Gen/LeafWait.vo", "theories/MT/WaitLink.vo"]
+                   "theories/Base/CSem.vo", "theories/Gen/LeafWait.vo", "theories/Gen/Leaf.vo", "theories/MT/WaitLink.vo"]
 
     # way (a) of the tie for the key of the interest tree: iv_wait_interest_compare and the two tests of __iv_wait_interest_find are
     # re-translated from the current source on every run (gen/c2gallina.py -> Gen/LeafWait.v); MT/WaitLink.v ties them to w_pid
@@ -620,7 +620,7 @@ class C11(SigBase):
 
     def pre_proof(self, ctx):
         import leafgen
-        return leafgen.regenerate(["LeafWait.v"])
+        return leafgen.regenerate(["LeafWait.v"], legacy=True)      # + Gen/Leaf.v: iv_wait_status_dead (whole function)
 
     def proofs(self, ctx):
         import leafgen
